@@ -171,6 +171,14 @@ static void do_arr(vf_case *c) {
 #endif
 #endif
 	{ bn_t *as = malloc(n ? n * sizeof(bn_t) : 1), *bs = malloc(n ? n * sizeof(bn_t) : 1); bn_t m; bn_new(m); ep_curve_get_ord(m); for (size_t i = 0; i < n; i++) { bn_new(as[i]); bn_new(bs[i]); bn_set_dig(as[i], (dig_t)(i + 2)); } VF_TRY(th, bn_mod_inv_sim(bs, (const bn_t *)as, m, (int)n)); transitions++; if (th) vf_fail(NULL, "bn_mod_inv_sim(n=%zu) raised %d", n, th); free(as); free(bs); }
+#if defined(WITH_EPX) && WSIZE == 64
+	if (n == 0) { /* the curves over F_p^3, F_p^4, F_p^8: empty arrays need no curve; every element access is out of bounds (one-byte blocks) */
+		dig_t *d0 = malloc(1); bn_t *k0 = malloc(1);
+#define EMPTY(N) { ep##N##_t rr, *p0 = malloc(1), *r0 = malloc(1); ep##N##_null(rr); ep##N##_new(rr); VF_TRY(th, ep##N##_mul_sim_dig(rr, (const ep##N##_t *)p0, d0, 0)); transitions++; if (th) vf_fail(NULL, "ep" #N "_mul_sim_dig(n=0) raised %d", th); else if (!ep##N##_is_infty(rr)) vf_fail(NULL, "ep" #N "_mul_sim_dig(n=0) is not the identity"); \
+			VF_TRY(th, ep##N##_mul_sim_lot(rr, (const ep##N##_t *)p0, (const bn_t *)k0, 0)); transitions++; if (th) vf_fail(NULL, "ep" #N "_mul_sim_lot(n=0) raised %d", th); VF_TRY(th, ep##N##_norm_sim(r0, (const ep##N##_t *)p0, 0)); transitions++; if (th) vf_fail(NULL, "ep" #N "_norm_sim(n=0) raised %d", th); free(p0); free(r0); ep##N##_free(rr); }
+		EMPTY(3) EMPTY(4) EMPTY(8)
+		free(d0); free(k0); }
+#endif
 #if defined(WITH_EPX) && WSIZE == 64 && FP_PRIME == 256
 	if (ep_curve_is_pairf()) { VF_TRY(th, ep2_curve_set_twist(cid == SM9_P256 ? RLC_EP_MTYPE : RLC_EP_DTYPE)); e2_cid = cid;
 		ep2_t g2, r2; ep2_new(g2); ep2_new(r2); ep2_curve_get_gen(g2);
